@@ -3,6 +3,7 @@
 set -e
 cd "$(dirname "$0")"
 export CARGO_NET_OFFLINE=true
+export CARGO_TARGET_DIR="$(pwd)/.cache/target"
 mkdir -p .cache evidence replays coq/gen
 ( cd coq && coq_makefile -f _CoqProject -o Makefile >/dev/null && timeout 3000 make -j16 >../.cache/coq-build.log 2>&1 ) || { tail -40 .cache/coq-build.log; exit 1; }
 ( cd harness && RUSTFLAGS="--cfg omaha_client_verif" timeout 3000 cargo build --offline >../.cache/cargo-build.log 2>&1 ) || { tail -40 .cache/cargo-build.log; exit 1; }
